@@ -162,7 +162,8 @@ def sites(W):
                             s.errors.append("%s" % e)
                 if pi is not None:
                     pt = unwrap_param(args[pi])
-                    if pt[0] == "agg" and pt[1] == "array":
+                    if pt[0] == "agg" and pt[1] in ("array", "tuple"):
+                        # params![a, b] / [a, b] / (a, b): positional parameters in order
                         s.params = [unwrap_param(v) for _, v in pt[2]]
                 if ri is not None and len(args) > ri:
                     ct = args[ri]
